@@ -792,16 +792,16 @@ example : (PL.clear plistSampleHeap plistSampleList).map
   decide
 
 /-- **XalanList at pointer level, history**: from the freshly constructed list object (no head node, no free
-chain) in any heap, every sequence of `push_back` / `push_front` / `pop_front` / `pop_back` / `clear()` calls
-that stays inside the `std::list` contract (`PL.pspecRun`: `pop_*` only on a non-empty list) runs through the
+chain) in any heap, every sequence of `push_back` / `push_front` / `pop_front` / `pop_back` / `clear()` /
+`insert(it, x)` / `erase(it)` calls (iterators named by their distance from `begin()`) that stays inside the
+`std::list` contract (`PL.pspecRun`: `pop_*` only on a non-empty list, `insert` up to `end()`, `erase` below it) runs through the
 executable pointer code (`PL.pstep`, the function `Driver/C20.lean` executes against the C++) without
 dereferencing a null / invalid pointer, and walking `next` from the head node then reads back exactly the
 specified sequence; the heap stays well formed (`PL.Rep`), so the statement composes over further calls.
 Induction over the call list composing `plist_constructNode_refines` (recycled node),
 `plist_constructNode_alloc_refines`, `plist_constructNode_first_refines`, `plist_freeNode_refines` and
-`plist_clear_refines`.  Not covered (stated in design/C20.md): positions inside the list (`insert` / `erase`
-through an iterator) and `splice` — those stay at the one-step theorems above and at the node-sequence level
-(`list_history_partial`). -/
+`plist_clear_refines`.  Not covered (stated in design/C20.md): iterators *saved across* calls, `splice`, range splice and `swap` — those
+stay at the one-step theorems above and at the node-sequence level (`list_history_partial`). -/
 theorem plist_history (h : PHeap α) (hlen : h.nodes.length ≠ 0) (ops : List (PL.POp α)) (s : List α)
     (hs : PL.pspecRun [] ops = some s) :
     ∃ h' l', PL.prun h {} ops = some (h', l') ∧ PL.toList h' l' = s ∧ PL.Rep h' l' s :=
@@ -809,10 +809,12 @@ theorem plist_history (h : PHeap α) (hlen : h.nodes.length ≠ 0) (ops : List (
 
 /-- non-vacuity: a call sequence inside the contract, with reuse of freed nodes and a `clear()` in the middle -/
 example : PL.pspecRun ([] : List Int)
-    [.pushBack 1, .pushFront 2, .popBack, .pushBack 3, .clear, .pushFront 4, .pushBack 5, .popFront] = some [5] := by
+    [.pushBack 1, .pushFront 2, .insertAt 1 9, .popBack, .eraseAt 0, .pushBack 3, .clear, .pushFront 4, .pushBack 5,
+     .insertAt 2 6, .popFront, .eraseAt 1] = some [5] := by
   decide
 example : ((PL.prun ({} : PHeap Int) {}
-    [.pushBack 1, .pushFront 2, .popBack, .pushBack 3, .clear, .pushFront 4, .pushBack 5, .popFront]).map
+    [.pushBack 1, .pushFront 2, .insertAt 1 9, .popBack, .eraseAt 0, .pushBack 3, .clear, .pushFront 4, .pushBack 5,
+     .insertAt 2 6, .popFront, .eraseAt 1]).map
       fun r => PL.toList r.1 r.2) = some [5] := by
   decide
 
